@@ -2,6 +2,8 @@
 //! real ascent / ascent_base / ascent-byods-rels code, prints one canonical line per op.
 mod sexp;
 mod agg;
+mod lat;
+mod lat_types;
 
 use std::io::{BufRead, Write};
 use std::panic::{catch_unwind, AssertUnwindSafe};
@@ -26,6 +28,7 @@ fn main() {
       }
       let res = catch_unwind(AssertUnwindSafe(|| match toks[0].atom() {
          Some("agg") => agg::handle(&toks[1..]),
+         Some("lat") => (|| lat_types::dispatch(toks.get(1)?.atom()?, toks.get(2)?.atom()?, &toks[3..]))(),
          _ => None,
       }));
       match res {
